@@ -76,7 +76,16 @@ def _fills(prog, res, build):
         # `val or fill`: the fill is still found; N0 reports the truth test
         fill = e.values[-1]
       else:
-        fill = e.orelse if not is_none(e.orelse) else e.body
+        # normal form: `<fill> if val is None else val`
+        t = e.test
+        fill = None
+        if isinstance(t, ast.Compare) and len(t.ops) == 1 and isinstance(
+            t.ops[0], ast.Is) and is_none(t.comparators[0]) and dotted(
+                t.left) == dotted(e.orelse):
+          fill = e.body
+        if fill is None:
+          raise AnalysisError('Linear.build: fill expression `%s` is not '
+                              '`<fill> if v is None else v`' % norm_text(e))
       sign = None
       f = fill
       neg = False
